@@ -6,7 +6,9 @@ package pubsub
 import (
 	"context"
 	"fmt"
+	"runtime/debug"
 	"sort"
+	"strings"
 	"sync"
 	"testing"
 	"testing/synctest"
@@ -244,7 +246,11 @@ func (n *vfNode) evalRecover(f func()) (pan any) {
 	done := make(chan struct{})
 	n.ps.eval <- func() {
 		defer close(done)
-		defer func() { pan = recover() }()
+		defer func() {
+			if r := recover(); r != nil {
+				pan = fmt.Sprintf("%v\n%s", r, vfLibFrames(string(debug.Stack())))
+			}
+		}()
 		f()
 	}
 	<-done
@@ -430,3 +436,26 @@ func vfMsgRPC(msgs ...*pb.Message) *RPC { return &RPC{RPC: pb.RPC{Publish: msgs}
 
 // vfTopic names the i-th symbolic topic.
 func vfTopic(i int) string { return fmt.Sprintf("topic-%d", i) }
+
+// vfLibFrames keeps the library frames of a stack (file:line of non-harness code), enough to name the call site.
+func vfLibFrames(stack string) string {
+	var out []string
+	lines := strings.Split(stack, "\n")
+	for i := 0; i+1 < len(lines); i++ {
+		if strings.Contains(lines[i], "go-libp2p-pubsub") && !strings.Contains(lines[i+1], "/vf_") && strings.HasPrefix(lines[i+1], "\t") {
+			fn := lines[i]
+			if j := strings.LastIndex(fn, "/"); j >= 0 {
+				fn = fn[j+1:]
+			}
+			loc := strings.TrimSpace(lines[i+1])
+			if j := strings.Index(loc, " +0x"); j >= 0 {
+				loc = loc[:j]
+			}
+			out = append(out, fn+" @ "+loc)
+			if len(out) >= 6 {
+				break
+			}
+		}
+	}
+	return strings.Join(out, "\n")
+}
